@@ -923,6 +923,35 @@ func init() {
 			keysSorted = append(keysSorted, k)
 		}
 		sort.Strings(keysSorted)
+		// ---- RSA: a signature whose first octet is zero must not verify with that octet stripped (and the length
+		// prefix adjusted): the raw signature is exactly as long as the modulus
+		zeroStripped := 0
+		for _, iss := range []*Prin{keys[2], keys[3]} {
+			for try := 0; try < 4000 && zeroStripped < 4; try++ {
+				d, err := delegation.Delegate(iss.Signer, keys[0].DID, []ucan.Capability[ucan.CaveatBuilder]{
+					ucan.NewCapability[ucan.CaveatBuilder]("store/add", iss.DID.String(), Cav{})}, delegation.WithNoExpiration(), delegation.WithNonce(fmt.Sprintf("z%d", try)))
+				if err != nil {
+					break
+				}
+				raw := d.Signature().Raw()
+				if len(raw) == 0 || raw[0] != 0 {
+					continue
+				}
+				zeroStripped++
+				m := *d.Data().Model()
+				m.S = signature.NewSignature(d.Signature().Code(), raw[1:]).Bytes()
+				ad, _, err := reDecode(&m)
+				if err != nil {
+					continue
+				}
+				nalter++
+				altHist["rsa-sig-leading-zero-stripped"]++
+				if okv, verr := ucan.VerifySignature(ad.Data(), iss.Real); verr == nil && okv {
+					direct = append(direct, map[string]any{"token": -1, "label": "RSA issuer " + iss.Name, "key": "verifies-after-altering:rsa-sig-leading-zero-stripped",
+						"what": "token still verifies after stripping the leading zero octet of its RSA signature", "root_hex": fmt.Sprintf("%x", ad.Root().Bytes())})
+				}
+			}
+		}
 		return writeJSON(o.out, "stats.json", map[string]any{"tokens": n, "verify_calls": nverify, "alterations_checked": nalter,
 			"option_masks_covered": len(optHist), "alteration_histogram": altHist, "collision_histogram": collHist, "sign_cases": len(signCases), "issue_refused": nrefused, "direct_violations": direct, "samples": samples, "issued_but_undecodable": undecodable,
 			"value_kinds": cst})
